@@ -38,7 +38,8 @@ AuxInit == [cmd     |-> EmptyFn,   \* proc |-> name of the command it is running
             psize   |-> EmptyFn,   \* pack |-> file size
             reader  |-> EmptyFn,   \* proc |-> TRUE while it runs a reading command (C14 order rule applies)
             sawSnap |-> EmptyFn,   \* proc |-> it has listed / loaded snapshots in this command
-            packsize |-> 0]        \* target pack size of the repository (from the Reset line, 0 = unknown)
+            packsize |-> 0,        \* target pack size of the repository (from the Reset line, 0 = unknown)
+            plisted |-> EmptyFn]   \* pack |-> blobs its (readable) header lists, whether or not they still decrypt
 
 E == Trace[l]
 Is(names) == l <= Len(Trace) /\ E.ev \in names
@@ -77,7 +78,8 @@ TTree ==
 TSavePack ==
   /\ Is({"SavePack", "InitPack"}) /\ Consume
   /\ SavePack(E.id, GoodBlobs(E))
-  /\ LET a == [aux EXCEPT !.plen = Put(@, E.id, LenFn(E)), !.psize = Put(@, E.id, E.size)]
+  /\ LET a == [aux EXCEPT !.plen = Put(@, E.id, LenFn(E)), !.psize = Put(@, E.id, E.size),
+                           !.plisted = Put(@, E.id, Rng(E.blobs))]
      IN aux' = IF E.ev = "InitPack" THEN Rebase(a) ELSE Touch(a, E.proc)
 
 TSaveIndex ==
@@ -149,7 +151,8 @@ TDamagePack ==
   /\ Is({"DamagePack"}) /\ Consume
   /\ packs' = Put(packs, E.id, GoodBlobs(E))
   /\ UNCHANGED <<idx, snaps, kids, keys, cfg>>
-  /\ aux' = Rebase([aux EXCEPT !.plen = Put(@, E.id, LenFn(E)), !.psize = Put(@, E.id, E.size)])
+  /\ aux' = Rebase([aux EXCEPT !.plen = Put(@, E.id, LenFn(E)), !.psize = Put(@, E.id, E.size),
+                               !.plisted = Put(@, E.id, Rng(E.blobs))])
 
 TDamageIndex ==
   /\ Is({"DamageIndex"}) /\ Consume
@@ -195,11 +198,15 @@ TraceAccepted == TLCGet("stats").diameter >= Len(Trace) + 1
 \* (on an undamaged history base = baseB = {} and these are Repo's invariants)
 T_SnapshotData    == \A b \in Needed : Stored(b) \/ b \in aux.baseB
 T_SnapshotIndexed == \A b \in Needed : Indexed(b) \/ b \in aux.baseB
-T_IndexSound      == \A e \in Entries : SoundEntry(e, packs) \/ e \in aux.base
+\* an index entry is sound when its pack exists and the pack's header lists the blob (whether
+\* the blob's bytes still decrypt is a matter of the pack, cf. C33: the index describes the packs)
+Listed            == [p \in DOMAIN packs |-> Get(aux.plisted, p, {}) \cup packs[p]]
+T_IndexSound      == \A e \in Entries : SoundEntry(e, Listed) \/ e \in aux.base
 
 \* ------------------------------------- ordering rules on recorded steps
 Env == l <= Len(Trace) /\ E.ev \in EnvEvents
-R_PackBeforeIndex           == [][Env \/ PackBeforeIndex]_storage
+R_PackBeforeIndex           == [][Env \/ \A i \in DOMAIN idx' \ DOMAIN idx :
+                                   \A e \in idx'[i] : SoundEntry(e, Listed)]_storage
 R_IndexBeforeSnapshot       == [][Env \/ \A s \in DOMAIN snaps' \ DOMAIN snaps :
                                    \A b \in ReachK(kids', snaps'[s].tree) : IndexedIn(b, idx, packs) \/ b \in aux.baseB]_storage
 R_IndexGoneBeforePackDelete == [][Env \/ IndexGoneBeforePackDelete]_storage
@@ -274,6 +281,21 @@ NoDuplicateUpload ==
          old == BlobsOf({e \in EntriesOf(aux.pre[ev.proc].idx) : SoundEntry(e, aux.pre[ev.proc].packs)})
      IN /\ \A p1, p2 \in new : p1 # p2 => packs[p1] \cap packs[p2] = {}
         /\ \A p \in new : packs[p] \cap old = {}
+
+\* C33: after `repair index` the index lists every blob of every pack whose header is
+\* readable and nothing else (nothing for missing or unreadable packs), and the repair
+\* deleted no pack file
+RepairIndexExact ==
+  (ev.ev = "Cmd" /\ ev.phase = "end" /\ "repairindex" \in DOMAIN ev /\ ev.repairindex) =>
+     /\ Entries = UNION {{<<b, p>> : b \in Get(aux.plisted, p, {})} : p \in DOMAIN packs}
+     /\ DOMAIN aux.pre[ev.proc].packs \subseteq DOMAIN packs
+\* C33 / C34: a repair command deletes a pack only after every blob that could still be read
+\* from it is indexed in another pack
+RepairKeepsReadable ==
+  \A p \in DOMAIN packs \ DOMAIN packs' :
+     (l <= Len(Trace) /\ CmdOf(E.proc) \in {"repair-packs", "repair-index"})
+        => \A b \in packs[p] : IndexedIn(b, idx', packs')
+R_RepairKeepsReadable == [][RepairKeepsReadable]_storage
 
 \* files written by restic are readable by restic's own decoder
 Readable   == (ev.ev \in SaveEvents /\ "readable" \in DOMAIN ev) => ev.readable
